@@ -348,3 +348,15 @@ class Havoc:
     """predicate-style loop invariant for one variable: fresh value + facts about it at iteration i"""
     def __init__(self, make, pred):
         self.make, self.pred = make, pred
+
+
+class PArr:
+    """positional numpy array of python/numpy numbers: length n, element at(p)"""
+    def __init__(self, n, at):
+        self.n, self.at = n, at
+
+
+class IntSet:
+    """a python list of ints used only for membership tests: abstract predicate"""
+    def __init__(self, pred, name="set"):
+        self.pred, self.name = pred, name
